@@ -522,7 +522,7 @@ func RunOne(t *testing.T, spec RunSpec, stats *Stats) (res *RunResult) {
 	defer func() {
 		if r := recover(); r != nil {
 			msg := fmt.Sprint(r)
-			if strings.Contains(msg, "deadlock") {
+			if strings.Contains(msg, "deadlock") && (spec.AllProps || spec.Prop == "C20") {
 				res.Violations = append(res.Violations, Violation{Property: "C20", Rule: "c20-wedge", Site: "bubble-deadlock", Scan: res.Scans, Detail: "all goroutines durably blocked: " + msg})
 				return
 			}
